@@ -18,32 +18,29 @@ MANIFEST = dict(
               'template rendering, invariants on memo tables and post-processor state) over T2-translated UniqueNameGenerator / '
               'LimitEmptyLines and translated structure facts of _generate_code; extracted-model vs. real-API correspondence in '
               'one interpreter per history',
-    text='Theorems in coq/theories/Properties/C10.v, for every history of generator constructions and generate_all() calls in one '
-         'interpreter, every input set, every processing order: after UniqueNameGenerator.reset() the i-th name is prefix+base+'
-         '(number of earlier calls with the same (key, base) in THIS file)+suffix; memo tables (lru_cache, any maxsize, cleared at '
-         'any time) are transparent; the object built for a type is the same in every input set that contains its dependency '
-         'closure; every memoisation / mutable-state site of src/nunavut (regenerated inventory: lru_cache, cached_property, memos, '
-         'lazy fields, singletons, mutable containers, global) is of a kind covered by the transparency lemmas or a listed finding, '
-         'and is in the reviewed inventory; a file ending in a non-blank line leaves every LimitEmptyLines counter at 0; the '
-         'template selected for a file is the nearest one of its pydsdl class chain in the generator\'s listing, '
-         'whatever the loader memo saw before (C16 lemmas imported; class graph a forest: hypothesis, tested per run); with the '
-         'translated per-file reset of the line processors the file is the same in any two histories (C10_file_indep, no side '
-         'condition); for the variant without that reset (code before 88d3c81): the content of a file equals the content the same type gets as the first and only file of a new interpreter '
-         'whenever the LimitEmptyLines counters of its generator are 0 when the file is started (file_indep_partial; that this '
-         'holds when every file ends in a non-blank line is tested per history, not proved); the unrestricted '
-         'statement is refuted by witness (finding F-LEL-LEAK, now fixed; the check reports a violation if the probe reproduces it). '
-         'Tie: UniqueNameGenerator and LimitEmptyLines are re-translated from /repo on every run, the position of reset() in '
-         '_generate_code is a translated fact; the extracted model is run on the same histories as the real DSDLCodeGenerator '
-         '(user template SETS named after random levels of the pydsdl hierarchy, each file carrying a marker naming the template, '
-         'written from random scripts over structs/unions/services/delimited types: exact bytes and selected template; built-in c/cpp/py/html templates: recorded chunk streams '
-         'replayed through the model, exact bytes) over whole namespace / dependency-closed subsets / permuted order / second '
-         'runs / other-option generators / cleared caches / a REDEFINED variant of the namespace / every type rendered first by a new '
-         'generator / ONE generator called repeatedly with different per-call arguments (omit_serialization_support, '
-         'embed_auditing_info, dry run) compared with a new generator given the same arguments, in one interpreter and against '
-         'new interpreters; the inventory also records whether a memoised VALUE is modified by a caller.',
+    text='Theorems in coq/theories/Properties/C10.v, for every history of generator constructions, generate_all() calls (any per-call '
+         'arguments, dry runs) and cache clearings in one interpreter, every input set, every processing order. Inventories '
+         'regenerated from src/nunavut on every run and proved admissible by vm_compute: every memoisation site is keyed by the identity '
+         'of self and by-value arguments (and no caller modifies a memoised value), every store on a long-lived object that is '
+         'reachable from rendering is reset per file / overwritten per generate_all / a memo of a pure function, every unique-name '
+         'filter runs at render time (C++ excepted: F-CPP-UNIQ-FOLD). C10_file_indep: PREMISES class forest, admissible site table (the '
+         'model looks memo keys up through it), admissible store table (the model\'s per-file step consults it), and the named '
+         'premise render_pure (which program a template is does not depend on process state); conclusion: same effective '
+         'configuration + template listing + constructed processors + type => same template and same bytes in any two histories. '
+         'C10_file_indep_real instantiates it with the regenerated tables and C16\'s regenerated pydsdl class forest, leaving only '
+         'render_pure. C10_subset: S included in W, closure of k inside S => the file of k EXISTS in both single runs and is '
+         'byte-identical. Also: unique names after reset are a function of this file\'s calls; memo transparency and the coarse-key '
+         'counterexample; template selection = nearest class of the chain in the listing; dry runs are inert. Regression variants '
+         '(shared LimitEmptyLines counter, F-LEL-LEAK) are in History/C10_history.v. '
+         'Tie: UniqueNameGenerator, LimitEmptyLines(.reset) and the reset facts of _generate_code are re-translated from /repo on '
+         'every run; the extracted model is run on the same histories as the real DSDLCodeGenerator (user template SETS over the '
+         'pydsdl hierarchy with markers, written from random scripts: exact bytes and selected template; built-in c/cpp/py/html '
+         'templates: byte comparison against new-interpreter references, line skeletons through the model) over whole namespace / '
+         'dependency-closed subsets / permuted order / second runs / other-option generators / cleared caches / a REDEFINED variant '
+         'of the namespace / every type rendered first / ONE generator called repeatedly with different per-call arguments.',
     note='Trusted: Coq kernel; T2 translators (pyfun_tr.py, gen_c10.py); extraction (ExtrOcamlBasic only) + ocaml/c10_driver.ml; '
-         'the signature of `render` (a template sees process state only through the unique-name generator and memoised pure '
-         'methods) is an assumption, tested by the byte comparison of real runs, not proved. Namespace (__init__/index) files '
+         'render_pure is a named premise of the theorems, backed outside Coq by the scanned inventories and tested by the byte '
+         'comparison of real runs; the store scanner\'s render-phase reachability is a name-based over-approximate call graph. Namespace (__init__/index) files '
          'and support files are not compared. builtin templates end every file in a non-blank line: checked per run, not proved.',
     design='§5 C10')
 
@@ -394,7 +391,7 @@ def run_model(exe: str, requests: typing.List[str]) -> typing.List[typing.Option
         elif t[0] == 'S':
             solid = t[1] == '1'
         elif t[0] == 'END':
-            res.append(None if bad else {'entries': cur, 'solid': solid})
+            res.append(None if bad else {'entries': cur})
             cur, solid, bad = [], None, False
         else:
             bad = True
@@ -790,7 +787,7 @@ def main(chk: core.Check, replay: typing.Optional[str] = None) -> int:
                 chk.known.append(e)
 
     # 1. proof obligations against the regenerated translation
-    res = core.coq_check('C10', ['uni', 'linepp', 'uniq', 'sites'])
+    res = core.coq_check('C10', ['uni', 'linepp', 'uniq', 'sites', 'lookup'])
     chk.proof_coverage(res, [
         'scanner tools/translators/gen_c10.py (generator sites): AST patterns for lru_cache/cache, cached_property, instance memos, '
         'lazy fields, class singletons, mutable class/module containers, global; bundled jinja2/markupsafe not scanned; '
@@ -893,7 +890,7 @@ def main(chk: core.Check, replay: typing.Optional[str] = None) -> int:
     stats = {'histories': len(hists), 'script_histories': 0, 'builtin_histories': 0, 'files': 0, 'files_by_lang': {},
              'model_vs_impl_compared': 0, 'oracle_vs_impl_compared': 0, 'known_finding_instances': 0,
              'unclean_boundaries_in_model': 0, 'second_or_later_file_of_a_process': 0, 'files_using_unique_names': 0,
-             'builtin_histories_solid': 0, 'harness_errors': 0, 'files_by_class': {}, 'template_of_an_ancestor_class': 0, 'subset_generators': 0, 'permuted_runs': 0}
+             'harness_errors': 0, 'files_by_class': {}, 'template_of_an_ancestor_class': 0, 'subset_generators': 0, 'permuted_runs': 0}
     distinct = set()
     bad_oracle: typing.List[dict] = []
     bad_model: typing.List[dict] = []
@@ -968,14 +965,6 @@ def main(chk: core.Check, replay: typing.Optional[str] = None) -> int:
             bad_model.append({'history': h.name, 'what': 'model and implementation wrote a different number of files',
                               'model': len(m['entries']), 'implementation': len(entries), 'job': h.job()})
             m = None
-        if h.kind == 'builtin' and m is not None:
-            stats['builtin_histories_solid'] += bool(m['solid'])
-        if m is not None and m['solid']:
-            # hist_solid => every file starts with zeroed counters (not proved in Coq; tested on every history of every run)
-            stats['solid_histories'] = stats.get('solid_histories', 0) + 1
-            if not all(x['clean'] for x in m['entries']):
-                bad_model.append({'history': h.name, 'what': 'model: hist_solid holds but a file was started with a non-zero counter',
-                                  'job': h.job()})
         prev_by_gen: typing.Dict[int, typing.List[str]] = {}
         for i, e in enumerate(entries):
             lang = h.cfgs[e['cfg']]['lang']
